@@ -2,8 +2,11 @@
 import asyncio
 import gc
 import logging
+import os
 import random
+import signal
 import sys
+import traceback
 import tempfile
 import time
 import uuid
@@ -53,8 +56,34 @@ class SimEnv:
         return False
 
     def run(self, coro, result=None):
-        """run_until_complete with simulator exceptions passed through."""
-        return self.loop.run_until_complete(coro)
+        """run_until_complete with simulator exceptions passed through.
+
+        A run is also bounded in CPU time (ITIMER_VIRTUAL: process CPU time, so a loaded machine does not matter): the
+        callback budget cannot see a loop that never gives control back to the event loop. Exceeding it is reported as
+        SimBudgetExceeded like any other runaway run."""
+        limit = float(os.environ.get('VERIF_MAX_CPU_S', '45'))
+        where = []
+
+        def on_cpu(signum, frame):
+            where.append(' < '.join('%s:%d:%s' % (f.filename.split('/')[-1], f.lineno, f.name)
+                                    for f in reversed(traceback.extract_stack(frame, limit=8))))
+            raise _CpuExceeded()
+        try:
+            old = signal.signal(signal.SIGVTALRM, on_cpu)
+        except ValueError:          # not the main thread
+            return self.loop.run_until_complete(coro)
+        signal.setitimer(signal.ITIMER_VIRTUAL, limit)
+        try:
+            return self.loop.run_until_complete(coro)
+        except _CpuExceeded:
+            raise SimBudgetExceeded('one run used more than %g s of CPU without finishing (busy loop?) at %s' % (limit, where[:1])) from None
+        finally:
+            signal.setitimer(signal.ITIMER_VIRTUAL, 0)
+            signal.signal(signal.SIGVTALRM, old)
+
+
+class _CpuExceeded(KeyboardInterrupt):
+    """Derives from KeyboardInterrupt so that asyncio tasks and wpull's `except Exception` let it through."""
 
 
 def task_stacks(loop, limit=6):
